@@ -1,0 +1,88 @@
+//go:build verif
+// +build verif
+
+package fit
+
+import (
+	"reflect"
+	"time"
+)
+
+// Read-only exports for the external verification harness. This file is
+// only compiled with the "verif" build tag; it adds nothing to, and changes
+// nothing in, a normal build.
+
+// VerifField is a copy of one profile lookup-table entry.
+type VerifField struct {
+	Sindex int
+	Num    byte
+	Type   uint16 // types.Fit bits: 0..4 base index, 5 array, 6..8 kind.
+	Base   byte   // Decompressed base type byte.
+	Array  bool
+	Kind   byte
+	Length byte
+}
+
+// VerifTableLen returns the length of the message dimension of the profile
+// lookup table.
+func VerifTableLen() int { return len(_fields) }
+
+// VerifFields returns the lookup-table entries of a message number, indexed
+// by field number (nil when absent). Out of range message numbers yield nil.
+func VerifFields(m MesgNum) []*VerifField {
+	if int(m) >= len(_fields) {
+		return nil
+	}
+	out := make([]*VerifField, 256)
+	for i, f := range _fields[m] {
+		if f == nil {
+			continue
+		}
+		out[i] = &VerifField{
+			Sindex: f.sindex,
+			Num:    f.num,
+			Type:   uint16(f.t),
+			Base:   byte(f.t.BaseType()),
+			Array:  f.t.Array(),
+			Kind:   byte(f.t.Kind()),
+			Length: f.length,
+		}
+	}
+	return out
+}
+
+// VerifKnownMesgNums returns the message numbers the library claims to know.
+func VerifKnownMesgNums() []MesgNum {
+	var out []MesgNum
+	for m, ok := range knownMsgNums {
+		if ok {
+			out = append(out, m)
+		}
+	}
+	return out
+}
+
+// VerifMesgType returns the struct type registered for a message number.
+func VerifMesgType(m MesgNum) reflect.Type {
+	if int(m) >= len(msgsTypes) {
+		return nil
+	}
+	return msgsTypes[m]
+}
+
+// VerifHasConstructor reports whether a constructor is registered for m.
+func VerifHasConstructor(m MesgNum) bool {
+	return int(m) < len(newMesgFuncs) && newMesgFuncs[m] != nil
+}
+
+// VerifNewMesg returns the all-invalid message value of a message number.
+func VerifNewMesg(m MesgNum) reflect.Value { return getMesgAllInvalid(m) }
+
+// VerifGlobalMesgNum maps a message struct type to its message number.
+func VerifGlobalMesgNum(t reflect.Type) MesgNum { return getGlobalMesgNum(t) }
+
+// VerifDecodeDateTime is the decoder's FIT seconds -> time conversion.
+func VerifDecodeDateTime(u uint32) time.Time { return decodeDateTime(u) }
+
+// VerifEncodeTime is the encoder's time -> FIT seconds conversion.
+func VerifEncodeTime(t time.Time) uint32 { return encodeTime(t) }
